@@ -5,7 +5,6 @@
   3. broken variants: a fixed list of deliberately wrong versions of the real code (applied to the
      text read from /repo, never written there) must each fail at the expected named obligation;
   4. the executable twin's exhaustive small-universe sanity run (spec reading vs. real code);
-  5. the bounded stand-in for sub_vec_* (unit U5, Kani) - labelled bounded, never counted as proved.
 Any surprise here means the CHECK is broken (exit 2), never a violation of the property.
 """
 from __future__ import annotations
@@ -191,17 +190,5 @@ def run(pid, units, results, seed):
             notes.append("twin sanity run not available: %s" % tr["error"])
     except ImportError:
         notes.append("twin not built")
-    # 5. bounded stand-in (U5)
-    if pid == "C06":
-        try:
-            import kani_u5
-            kr = kani_u5.run(seed)
-            ev["bounded_standins"] = [kr]
-            if kr.get("status") == "failed":
-                und.append("bounded stand-in U5 (Kani) found a counterexample to an ASSUMED contract of sub_vec_*: %s" % kr.get("detail"))
-            elif kr.get("status") != "ok":
-                notes.append("bounded stand-in U5 did not finish (%s): the three sub_vec_* contracts stay plain assumptions" % kr.get("status"))
-        except ImportError:
-            notes.append("bounded stand-in U5 not built")
     ev["thorough_wall_s"] = round(time.time() - t0, 1)
     return und, notes, ev
